@@ -41,6 +41,8 @@ var rawExtraHeaders = []string{
 	"", "Range: bytes=", "Range: bytes=5", "Range: bytes=0-0,1-1", "Range: bytes=-18446744073709551616", "Range: \x01", "Range: bytes=0-4\r\nRange: bytes=5-9",
 	"If-Range: ", "If-Range: \"", "If-Range: W/", "If-Range: Mon, 99 Foo 2000 99:99:99 GMT", "If-Modified-Since: garbage", "If-None-Match: *", "If-Match: \"x\"",
 	"Cache-Control: max-age=99999999999999999999", "Cache-Control: =", "Cache-Control: ,,,,", "Cache-Control: max-age=\"", "Cache-Control: no-cache=\"set-cookie",
+	// quoted-strings and backslashes in every relation to each other
+	"Cache-Control: max-age=60, ext=\"a\", b\\c", "Cache-Control: \\\"", "Cache-Control: x=\"y\\", "Cache-Control: \\", "Cache-Control: a=\"\\\"\", \\b, c=\"d", "Cache-Control: \"\\",
 	"Content-Length: 0", "Content-Length: -1", "Content-Length: 0\r\nContent-Length: 0", "Transfer-Encoding: chunked", "Transfer-Encoding: gzip",
 	"X-Long: " + strings.Repeat("v", 8000), "X-Empty:", "NoColonHeader", ": empty-name", "X-Fold: a\r\n b", "Connection: close", "Connection: Host",
 	"Connection: keep-alive, Range, If-Range", "Upgrade: websocket\r\nConnection: upgrade", "Accept-Encoding: gzip, br", "Proxy-Authorization: Basic !!!!", "Via: 1.1 x",
@@ -71,6 +73,8 @@ var hostileResponses = []string{
 	"HTTP/1.1 200 OK\r\nContent-Length: 10\r\nCache-Control: max-age=60\r\n\r\nabc",
 	"HTTP/1.1 200 OK\r\nContent-Length: 0\r\nCache-Control: max-age=60\r\nETag: \"e\"\r\n\r\n",
 	"HTTP/1.1 204 No Content\r\nCache-Control: max-age=60\r\n\r\n",
+	"HTTP/1.1 200 OK\r\nContent-Length: 3\r\nCache-Control: max-age=60, ext=\"a\", b\\c\r\n\r\nabc",
+	"HTTP/1.1 200 OK\r\nContent-Length: 3\r\nCache-Control: x=\"y\\\r\n\r\nabc",
 	"HTTP/1.1 099 Low\r\nContent-Length: 3\r\n\r\nabc",
 	"HTTP/1.1 000 Zero\r\nContent-Length: 0\r\n\r\n",
 	"HTTP/1.1 101 Switching Protocols\r\nUpgrade: x\r\nConnection: Upgrade\r\n\r\n",
@@ -286,6 +290,7 @@ func enumString(alpha []byte, i int) string {
 const validPHC = "$argon2id$v=19$m=64,t=1,p=1$c29tZXNhbHRzb21lc2FsdA$RdescudvJCsgt3ub+b+dWRWJTmaaJObG"
 
 var phcMemRe = regexp.MustCompile(`\$m=(\d+),`)
+var phcTimeRe = regexp.MustCompile(`,t=(\d+),`)
 
 func trunc(s string, n int) string {
 	if len(s) > n {
@@ -299,7 +304,7 @@ func phcMutations(r *rand.Rand, n int) []string {
 	subs := [][]string{
 		{"argon2id", "argon2i", "", "ARGON2ID", "bcrypt"},
 		{"v=19", "v=", "v=x", "19", "v=99999999999999999999", "v=-1"},
-		{"m=64,t=1,p=1", "m=64,t=1,p=1,l=24", "m=64,t=1,p=1,l=23", "m=0,t=1,p=1", "m=64,t=1,p=0", "m=64,t=1,p=256", "m=,t=,p=", "", "m=64", "m=64,t=1,p=1,x", "m=64,,t=1,,p=1", "m=4294967296,t=1,p=1", "m=-1,t=1,p=1", "m=64,t=1,p=1,l=4294967295", "m=4294967295,t=1,p=1", "m=2147483648,t=1,p=2", "m=1073741824,t=1,p=1"},
+		{"m=64,t=1,p=1", "m=64,t=1,p=1,l=24", "m=64,t=1,p=1,l=23", "m=0,t=1,p=1", "m=64,t=1,p=0", "m=64,t=1,p=256", "m=,t=,p=", "", "m=64", "m=64,t=1,p=1,x", "m=64,,t=1,,p=1", "m=4294967296,t=1,p=1", "m=-1,t=1,p=1", "m=64,t=1,p=1,l=4294967295", "m=4294967295,t=1,p=1", "m=2147483648,t=1,p=2", "m=1073741824,t=1,p=1", "m=64,t=4294967295,p=1", "m=64,t=2147483648,p=1", "m=8,t=1073741824,p=1"},
 		{"c29tZXNhbHRzb21lc2FsdA", "", "c29tZXNhbHQ", "c29tZXNhbHRzb21lc2FsdHNvbWVzYWx0c29tZXNhbHQ", "!!!!", "c29tZXNhbHRzb21lc2FsdA==", "c29tZXNhbHRzb21lc2FsdAA", strings.Repeat("A", 4000)},
 		{"RdescudvJCsgt3ub+b+dWRWJTmaaJObG", "", "!!", "RdescudvJCsgt3ub", strings.Repeat("B", 4000), "RdescudvJCsgt3ub+b+dWRWJTmaaJObG=="},
 	}
@@ -425,6 +430,13 @@ func runParserPlan(t *testing.T, planAny any, ctl Ctl) *Result {
 					if m := phcMemRe.FindStringSubmatch(h.String()); m != nil {
 						if kib, _ := strconv.ParseUint(m[1], 10, 64); kib >= 1<<30 {
 							res.violate("C16.b", "phc-accepted-with-memory-parameter-that-aborts-the-process", "ParsePHC accepted %q: verifying a password against it allocates %d KiB", trunc(it, 120), kib)
+						}
+					}
+					// ... and makes t passes over it: a billion passes and more never end, the login that
+					// needs the verdict is never answered
+					if m := phcTimeRe.FindStringSubmatch(h.String()); m != nil {
+						if t, _ := strconv.ParseUint(m[1], 10, 64); t >= 1<<30 {
+							res.violate("C16.a", "phc-accepted-with-time-parameter-that-never-ends", "ParsePHC accepted %q: verifying a password against it makes %d passes", trunc(it, 120), t)
 						}
 					}
 				}
